@@ -43,6 +43,15 @@ class InterpEnv:
     TIME_LIMIT = 20.0
 
     def __init__(self) -> None:
+        self.dir = ''
+        try:
+            self._init()
+        except BaseException:
+            if self.dir:
+                common.rmtree(self.dir)
+            raise
+
+    def _init(self) -> None:
         from mesonbuild import mparser, mlog, environment, build, msetup
         from mesonbuild.interpreter import Interpreter
         from mesonbuild.interpreterbase._unholder import _unholder
@@ -62,10 +71,13 @@ class InterpEnv:
         opts = p.parse_args(['--backend=none', self.src, self.bld])
         self._old_disable = mlog._logger.log_disable_stdout
         mlog._logger.log_disable_stdout = True
+        from mesonbuild.utils import universal as U
+        if U._meson_command is None:       # `command:` mode runs the program with MESONINTROSPECT etc. in its environment
+            U.set_meson_command(os.path.join(common.REPO, 'meson.py'))
         env = environment.Environment(self.src, self.bld, opts)
         self.interp = Interpreter(build.Build(env), user_defined_options=opts)
-        # the project() call: sets the target version that FeatureNew checks consult
-        self.interp.evaluate_codeblock(self.parse("project('c14cf', meson_version: '>=1.3.0')"))
+        # (the constructor has evaluated the project() call of the root file: the target version that the
+        # FeatureNew checks consult is set)
         self.warnings: T.List[str] = []
         self._orig_warning = mlog.warning
         outer = self
@@ -74,8 +86,38 @@ class InterpEnv:
             outer.warnings.append(' '.join(str(getattr(a, 'text', a)) for a in args))
         mlog.warning = warning
         self._n = 0
+        # which core routine a call reaches (observed from outside; a routine that cannot be wrapped is reported)
+        self.actions: T.List[str] = []
+        self.spy_problems: T.List[str] = []
+        self._restore: T.List[T.Tuple[T.Any, str, T.Any]] = []
+        import shutil
+        from mesonbuild import mesonlib
+
+        def spy(owner: T.Any, attr: str, label: str) -> None:
+            orig = getattr(owner, attr, None)
+            if not callable(orig):
+                self.spy_problems.append(f'{getattr(owner, "__name__", type(owner).__name__)}.{attr} is not callable')
+                return
+
+            def wrapped(*a: T.Any, **k: T.Any) -> T.Any:
+                outer.actions.append(label)
+                return orig(*a, **k)
+            self._restore.append((owner, attr, orig))
+            setattr(owner, attr, wrapped)
+        spy(mesonlib, 'do_conf_file', 'configuration')
+        spy(mesonlib, 'dump_conf_header', 'configuration')
+        spy(shutil, 'copy2', 'copy')
+        spy(self.interp, 'run_command_impl', 'command')
 
     def close(self) -> None:
+        for owner, attr, orig in reversed(self._restore):
+            try:
+                if owner is self.interp:
+                    delattr(owner, attr)
+                else:
+                    setattr(owner, attr, orig)
+            except Exception:
+                pass
         self.mlog.warning = self._orig_warning
         self.mlog._logger.log_disable_stdout = self._old_disable
         common.rmtree(self.dir)
@@ -105,6 +147,7 @@ class InterpEnv:
         it.configure_file_outputs = {}
         it.current_node = self.mparser.BaseNode(-1, -1, 'sentinel')
         self.warnings = []
+        self.actions = []
         opath = os.path.join(self.bld, output)
         for p in (opath, opath + '~'):
             if os.path.exists(p):
